@@ -28,3 +28,10 @@ Proof.
   destruct (prefix_eqb_spec p q); simpl; [|constructor; congruence].
   destruct (bool_eqb_spec a b); constructor; congruence.
 Qed.
+
+(* evaluate something at the implementation's own initial state (whatever its representation is) *)
+Definition at_init {A : Type} (I : ScanImpl) (d : A) (k : sc_st I -> A) : A :=
+  match sc_init I with Ret s => k s | Panic => d end.
+Lemma at_init_elim : forall (A : Type) (I : ScanImpl) (d : A) (k : sc_st I -> A) s0,
+  sc_init I = Ret s0 -> at_init I d k = k s0.
+Proof. intros A I d k s0 H. unfold at_init. rewrite H. reflexivity. Qed.
